@@ -58,6 +58,12 @@ def hasher_fresh_per_put(ctx, F):
             if os_ and all(o.kind == 'call' and str(o.key) in ('blake3::Hasher::new', 'blake3::Hasher::new_keyed', 'blake3::Hasher::default') for o in os_):
                 ctx.ok('C10.R7', '%s:hasher-made-for-this-put' % where, 'the hasher is created in the handler', term_loc(b, cb))
                 continue
+            # a capture of the handler's own fresh hasher (`with_commit_lock(.., || hasher.finalize() ..)`): resolved in the creating body
+            from rules import C04 as _C04
+            res_ = [(pb_, o_) for pb_, o_ in _C04.capture_origins(F, b, ct['args'][0]) if o_.kind != 'comb']
+            if res_ and all(o_.kind == 'call' and str(o_.key) in ('blake3::Hasher::new', 'blake3::Hasher::new_keyed', 'blake3::Hasher::default') for _, o_ in res_):
+                ctx.ok('C10.R7', '%s:hasher-made-for-this-put' % where, 'the hasher is created in the handler and captured', term_loc(b, cb))
+                continue
             if not os_ or not all(o.kind in ('param', 'upvar') for o in os_):
                 ctx.undecided('C10.R7', '%s finalizes a hasher whose origin is not read (%s)' % (where, sorted({o.kind for o in os_})))
                 continue
